@@ -47,6 +47,24 @@ NameVerdict(s) ==
   ELSE "accept"
 
 ---------------------------------------------------------------------------
+(* 1b. Words: field names / enum elements and member names, character by character.                          *)
+(*     field name  = letter ( "_"? (letter | digit) )*        (no leading, trailing or doubled underscore)  *)
+(*     member name = upper-case letter (letter | digit)*      (type, method and error names)                *)
+(* Character classes: "l" lower-case letter, "U" upper-case letter, "d" digit, "_" underscore, "o" anything  *)
+(* else that is not white space (hyphen, dot, non-ASCII letter ...).                                          *)
+WordClasses == {"l", "U", "d", "_", "o"}
+IsLetter(c) == c \in {"l", "U"}
+IsAlnum(c) == c \in {"l", "U", "d"}
+FieldVerdict(w) ==
+  IF Len(w) = 0 THEN "reject"
+  ELSE IF /\ IsLetter(w[1])
+          /\ \A i \in 2..Len(w) : IsAlnum(w[i]) \/ (w[i] = "_" /\ i < Len(w) /\ IsAlnum(w[i + 1]))
+       THEN "accept" ELSE "reject"
+MemberNameVerdict(w) ==
+  IF Len(w) = 0 THEN "reject"
+  ELSE IF w[1] = "U" /\ \A i \in 2..Len(w) : IsAlnum(w[i]) THEN "accept" ELSE "reject"
+
+---------------------------------------------------------------------------
 (* 2. Token-level grammar.                                                                                        *)
 (* Tokens: "interface" "IFACE" "NL" "type" "method" "error" "Name" "fld" "(" ")" "," ":" "->" "?" "[]" "[string]" *)
 (*         "bool" "int" "float" "string" "object" "junk"                                                          *)
